@@ -30,6 +30,7 @@ fn pc_of(proc: &str, point: Option<&str>) -> &'static str {
         (_, Some("stream.loop.top")) => "idle",
         (_, Some("stream.published.before_process")) | (_, Some("process_operation.start")) => "taken",
         (_, Some("stream.published.processed")) | (_, Some("process_operation.processed")) => "processed",
+        (_, Some("acked.ack.before_read")) => "acklocked",
         (_, Some("acked.ack.after_read")) => "ackread",
         (_, Some("acked.ack.before_commit")) => "ackintx",
         (_, Some("stream.loop.before_send")) | (_, Some("replay.before_send")) => "deliver",
@@ -45,9 +46,12 @@ struct Tracker {
     stpc: &'static str,
     pubpc: &'static str,
     apppc: &'static str,
-    /// seqs of own operations enqueued and not yet taken by the stream task
-    pubq: VecDeque<i64>,
-    forged_seq: i64,
+    /// (seq, body) of own operations enqueued and not yet taken by the stream task
+    pubq: VecDeque<(i64, bool)>,
+    forged: (i64, bool),
+    /// does the operation the stream task works on get acknowledged by the node (None = unknown)
+    st_needs_ack: Option<bool>,
+    auto: bool,
     stored: Vec<Value>,
     steps_since_open: usize,
 }
@@ -65,12 +69,18 @@ impl Tracker {
         self.pubpc != "intx" && self.stpc != "ackintx" && self.apppc != "ackintx"
     }
     fn ack_free(&self) -> bool {
-        !matches!(self.stpc, "ackread" | "ackintx") && !matches!(self.apppc, "ackread" | "ackintx")
+        !matches!(self.stpc, "acklocked" | "ackread" | "ackintx") && !matches!(self.apppc, "acklocked" | "ackread" | "ackintx")
     }
     fn absorb(&mut self, obs: &Value) {
         self.stpc = pc_of("st", obs["parked"]["st"].as_str());
         self.pubpc = pc_of("pub", obs["parked"]["pub"].as_str());
         self.apppc = pc_of("app", obs["parked"]["app"].as_str());
+        if obs["blocked"]["st"] == true {
+            self.stpc = "ackblocked";
+        }
+        if obs["blocked"]["app"] == true {
+            self.apppc = "ackblocked";
+        }
         self.stored = obs["stored"].as_array().cloned().unwrap_or_default();
     }
 }
@@ -173,7 +183,9 @@ fn one_run(
         pubpc: "idle",
         apppc: "idle",
         pubq: VecDeque::new(),
-        forged_seq: -1,
+        forged: (-1, true),
+        st_needs_ack: None,
+        auto: true,
         stored: Vec::new(),
         steps_since_open: 0,
     };
@@ -204,6 +216,8 @@ fn one_run(
             let (h, obs) = Host::start(kill, &cmd)?;
             host = Some(h);
             t.up = true;
+            t.auto = p == "auto";
+            t.st_needs_ack = None;
             t.pubq.clear();
             t.steps_since_open = 0;
             t.absorb(&obs);
@@ -239,8 +253,8 @@ fn one_run(
         }
         match t.stpc {
             "idle" => {
-                if let Some(seq) = t.pubq.front() {
-                    choices.push(("TakePublished", json!({"op": {"a": "me", "tp": "t", "seq": seq}})));
+                if let Some((seq, body)) = t.pubq.front() {
+                    choices.push(("TakePublished", json!({"op": {"a": "me", "tp": "t", "seq": seq, "body": body}})));
                 } else {
                     for r in AUTHORS.iter().skip(1).take(n_remotes) {
                         // the next operation of the log or one that is still stored
@@ -268,6 +282,14 @@ fn one_run(
             }
             "taken" if t.tx_free() => choices.push(("PipelineProcess", json!({}))),
             "processed" if t.ack_free() => choices.push(("ReleaseProcessed", json!({}))),
+            // the application holds the Acked permit (parked inside its ack): if the node will ack
+            // this operation, its call has to wait; if it will not, it goes on to deliver
+            "processed" => match t.st_needs_ack {
+                Some(true) => choices.push(("ReleaseProcessed", json!({"maybe_blocked": true}))),
+                Some(false) => choices.push(("ReleaseProcessed", json!({}))),
+                None => {}
+            },
+            "acklocked" => choices.push(("AckRead", json!({}))),
             "ackread" if t.tx_free() => choices.push(("AckWriteTx", json!({}))),
             "ackintx" => choices.push(("AckCommit", json!({}))),
             "deliver" => choices.push(("Deliver", json!({}))),
@@ -277,11 +299,13 @@ fn one_run(
         match t.apppc {
             "idle" => {
                 choices.push(("AppRecv", json!({})));
-                if t.ack_free() && !t.stored.is_empty() && rng.chance(1, 2) {
+                if !t.stored.is_empty() && rng.chance(1, 2) {
                     let op = rng.pick(&t.stored).clone();
-                    choices.push(("AppAckBegin", json!({"op": op})));
+                    // while the stream task is inside its own ack the call has to wait for the permit
+                    choices.push(("AppAckBegin", json!({"op": op, "maybe_blocked": !t.ack_free()})));
                 }
             }
+            "acklocked" => choices.push(("AppAckRead", json!({}))),
             "ackread" if t.tx_free() => choices.push(("AppAckWriteTx", json!({}))),
             "ackintx" => choices.push(("AppAckCommit", json!({}))),
             _ => {}
@@ -292,7 +316,7 @@ fn one_run(
         let (act, arg) = rng.pick(&choices).clone();
         let before_st = t.stpc;
         // "ReleaseProcessed": the implementation decides between acknowledging and not
-        let cmd_act = if act == "ReleaseProcessed" { "AckRead" } else { act };
+        let cmd_act = if act == "ReleaseProcessed" { "AckEnter" } else { act };
         let mut cmd_arg = arg.clone();
         if act == "ForgeBegin" {
             let prune = rng.chance(1, 7);
@@ -303,17 +327,24 @@ fn one_run(
         t.absorb(&obs);
         let name = match act {
             "ReleaseProcessed" => match t.stpc {
-                "ackread" => "AckRead",
+                "acklocked" | "ackblocked" => "AckEnter",
                 "deliver" => "SkipAck",
                 other => return Err(format!("released from 'processed', landed at pc {other}")),
             },
             other => other,
         };
         match name {
-            "ForgeCommit" => t.forged_seq = t.height("me", "t"),
-            "Enqueue" => t.pubq.push_back(t.forged_seq),
+            "ForgeBegin" => t.forged.1 = cmd_arg["op"]["body"].as_bool().unwrap_or(true),
+            "ForgeCommit" => t.forged.0 = t.height("me", "t"),
+            "Enqueue" => t.pubq.push_back(t.forged),
             "TakePublished" => {
-                t.pubq.pop_front();
+                if let Some((_, body)) = t.pubq.pop_front() {
+                    t.st_needs_ack = Some(!body || t.auto);
+                }
+            }
+            "TakeImported" => {
+                let body = arg["op"]["body"].as_bool().unwrap_or(true);
+                t.st_needs_ack = Some(!body || t.auto);
             }
             "AppRecv" => {
                 if obs["ev"]["k"] == "none" {
@@ -321,6 +352,9 @@ fn one_run(
                 }
             }
             _ => {}
+        }
+        if matches!(t.stpc, "idle" | "ending" | "off") {
+            t.st_needs_ack = None;
         }
         for o in &t.stored {
             if o["tp"] == "t" {
